@@ -436,20 +436,8 @@ def subset_meta(c):
 
 
 def subset_crash_class(c):
-    """the three crashes of the stochastic path on variables without the plate (case-derived)"""
-    if model_flag("code_subset_scalar_paths", False):
-        return None, None          # repaired: the three shapes go through and are checked like every other case
-    plated = set(c["plate"]["vars"])
-    bf = c["base_factors"]
-    if any(not any(v in plated for v in f) for f in bf):
-        return "subset-factor-without-plate", "TypeError"
-    for s in c["steps"]:
-        for v in bf[s["f"]]:
-            # the rescaled split only happens for a proper batch (scale = |batch| / |plate| < 1)
-            if v not in plated and sum(1 for f in bf if v in f) < 2 and len(c["batch"]) < c["plate"]["n"]:
-                return "subset-scalar-variable-single-owner", "KeyError"
-    if c["writeback"] in ("update", "setitem") and any(v not in plated for f in bf for v in f):
-        return "subset-inplace-writeback-scalar-variable", "TypeError"
+    """the three crashes of the subset path on plate-free variables were repaired (1d542b0): none is expected, an
+    exception on those shapes is a violation like any other"""
     return None, None
 
 
@@ -617,14 +605,28 @@ def sim_init(c, occ_variant):
     return st
 
 
+# pinned cases of REPAIRED defects: each must pass oracle and correspondence (obligation regression:<signature>)
+REGRESSIONS = {
+    "finding-latest-result.json": "latest-result-returns-first-success",
+    "finding-prior-twice.json": "prior-counts-count-occurrences",
+    "finding-dynamic-delta-one.json": "per-variable-delta-one-never-updates",
+    "finding-subset-crash-no-plate.json": "subset-factor-without-plate",
+    "finding-subset-crash-single-owner.json": "subset-scalar-variable-single-owner",
+    "finding-subset-crash-writeback.json": "subset-inplace-writeback-scalar-variable",
+}
+
+
 def gen_cases(ctx):
     rng = ctx.rng
     thorough = ctx.tier == "thorough"
     cases = []
     corpus = os.path.join(common.VERIF, "corpus", "C18")
+    ctx.c18_pinned = {}
     if os.path.isdir(corpus):
         for f in sorted(os.listdir(corpus)):
             if f.endswith(".json"):
+                if f in REGRESSIONS:
+                    ctx.c18_pinned[len(cases)] = REGRESSIONS[f]
                 cases.append(json.load(open(os.path.join(corpus, f))))
     n_raw, n_plate, n_par, n_decl = (120, 40, 45, 110) if not thorough else (800, 250, 300, 750)
     n_sub = 40 if not thorough else 250
@@ -1275,18 +1277,11 @@ def classify(c, tagged):
                 owners[v] = owners.get(v, 0) + 1
         single = {v for v, n in owners.items() if n == 1} if not include else set()
     for t in tagged:
-        if t[0] == "init-power":
-            if t[1] in dup:
-                labels.add("prior-twice-in-one-factor")
-            else:
-                return []
-        elif t[0] == "init-missing":
+        if t[0] == "init-missing":
             if t[1] in single:
                 labels.add("no-prior-factors-single-owner")
             else:
                 return []
-        elif t[0] == "latest_result":
-            labels.add("latest-result-after-two-successes")
         elif t[0] == "posterior-missing":
             # drawn only by a child of a hierarchical factor that is not its last child (children share one name)
             early = {v for m in c["mfactors"] if m["t"] == "hier" and len(m["drawn"]) > 1 for v in m["drawn"][:-1]}
@@ -1296,13 +1291,9 @@ def classify(c, tagged):
                 return []
         elif t[0] == "alias-index-write":
             labels.add("indexed-inplace-write-after-project")
-        elif t[0] == "delta":
-            # per-variable damping (a MeanField of deltas, as DynamicUpdater passes) with delta exactly 1
-            if t[1] in ("dynamic", "pervar") and t[2] == 1.0:
-                labels.add("per-variable-delta-one")
-            else:
-                return []
         else:
+            # everything else -- including the repaired defects (prior counted twice, latest_result, per-variable
+            # delta of exactly 1) -- is a violation
             return []
     return sorted(labels)
 
@@ -1493,7 +1484,9 @@ def run(ctx):
     ]
     built = ctx.build()
     cases = gen_cases(ctx)
+    pinned = dict(getattr(ctx, "c18_pinned", {}))
     if ctx.replay:
+        pinned = {}
         rp = json.load(open(ctx.replay))
         if rp.get("case"):
             cases = [rp["case"]]
@@ -1580,6 +1573,13 @@ def run(ctx):
     if os.path.exists(os.path.join(common.COQ, "C18", "Model.vo")):
         hdr = ctx.header(["Model"])
         bad, log = ctx.eval_cases(hdr, "case", "check_case", coq_cases, shard=20)
+        disagree = {coq_idx[b] for b in (bad or [])}
+        for i, sig in sorted(pinned.items()):
+            ok_ = i not in oracle_failed and i not in disagree and i in coq_idx and bad is not None
+            ctx.obligation("regression:" + sig, "regression", ok_,
+                           "pinned case of the repaired defect passes oracle and correspondence" if ok_ else
+                           "pinned case of the repaired defect fails again (oracle: %s, correspondence: %s)"
+                           % (i in oracle_failed, i in disagree or i not in coq_idx))
         if bad:
             for b in bad[:5]:
                 i = coq_idx[b]
